@@ -98,16 +98,16 @@ theorem refused_iff (kw : List String) (st : St) (op : Op) :
   cases st.apply kw op <;> simp
 
 /-- **Only valid identifiers not starting with an underscore ever become names**: in every state
-reachable by any sequence of operations every component of every space id, every cells and reference
-name (defined or derived) and every model-level reference is a valid name.  (`new_cells` with an invalid
+reachable by any sequence of operations every component of every space id and every cells and reference
+name (defined or derived) is a valid name.  (Not claimed for model-level references: `model.name = value`
+tests no name in the code - `ModelImpl.set_attr` - and the property speaks of spaces and cells.)  (`new_cells` with an invalid
 explicit name does not raise: the cells gets the name of its formula or an automatic one, which is the
 name that is checked - `SM.St.cellsName`.) -/
 theorem reachable_names_valid (kw : List String) (ops : List Op) :
     (∀ q ∈ (St.run kw {} ops).ids, ∀ c ∈ q, isValidName kw c = true) ∧
-    (∀ a q n, ((St.run kw {} ops).mem a q n).isSome = true → isValidName kw n = true) ∧
-    (∀ n ∈ (St.run kw {} ops).globals, isValidName kw n = true) := by
+    (∀ a q n, ((St.run kw {} ops).mem a q n).isSome = true → isValidName kw n = true) := by
   have h := run_invN kw ops
-  exact ⟨h.names.ids, fun a q n hm => h.names.mems h.toInv a q n hm, h.names.globals⟩
+  exact ⟨h.names.ids, fun a q n hm => h.names.mems h.toInv a q n hm⟩
 
 /-- **Every accepted edit leaves a C3 linearisation for every space**: in every state reachable by
 any sequence of operations, `get_mro` of every space returns (it starts with the space). -/
